@@ -665,13 +665,18 @@ def main(argv):
             print(f'KNOWN-FINDING: property={prop} {known.get(sig, sig)} '
                   f'[sig={sig} hits={n}]')
     if os.environ.get('VERIF_COLLECT'):
-        for m in results.values():
+        for pname, m in results.items():
             for sig, ex in sorted(m['known_example'].items()):
                 if sig in known:
                     continue
                 print(f'=== COLLECTED sig={sig} hits={m["known"][sig]}')
                 print(ex['detail'][-1200:])
                 print('    desc:', json.dumps(ex['desc'])[:600])
+                try:
+                    print('    replay:', write_replay(prop, dict(
+                        ex, sig=sig, part=pname)))
+                except Exception as e:      # development aid only
+                    print('    (no replay file:', e, ')')
         return 3
 
     if reported:
